@@ -244,6 +244,9 @@ def _encode(np, a):
 EULER_WHICH = {'Min': 0, 'Mid': 1, 'Maj': 2}
 
 
+_SHARED_FIELDS = {}
+
+
 def impl_load(payload):
     """payload: {'root', 'catalogs': [spec], 'loads': [{'cat', 'cleaned', 'units', 'fields', 'subsamples'}]}
     -> per load {'class': 'ok', 'cols': {name: rows x comps}, 'dtypes': {name: str}, 'euler_ok': {name: bool}}
@@ -262,7 +265,13 @@ def impl_load(payload):
         spec, loc = payload['catalogs'][ld['cat']], locs[ld['cat']]
         kw = dict(cleaned=bool(ld.get('cleaned')), convert_units=bool(ld.get('units', True)))
         fields = ld.get('fields', 'DEFAULT_FIELDS')
-        kw['fields'] = list(fields) if isinstance(fields, list) else fields
+        before = None
+        if isinstance(fields, list):
+            # one list OBJECT per distinct request, shared by all loads of this process (a module-level FIELDS list): the
+            # loader must leave it as it was, and later loads given the same object must still return what it names
+            before = tuple(fields)
+            fields = _SHARED_FIELDS.setdefault(before, list(fields))
+        kw['fields'] = fields
         if ld.get('subsamples'):
             kw['subsamples'] = dict(ld['subsamples'])
         if kw['cleaned']:
@@ -281,7 +290,9 @@ def impl_load(payload):
                     code = np.array([r[0] for r in spec['halo'][f'{m[1]}_{m[3]}_u16']], dtype=np.uint16)
                     ref = _unpack_euler16(code)[EULER_WHICH[m[2]]].astype(np.float32)
                     eul[name] = bool(np.array_equal(arr, ref))
-            res = {'class': 'ok', 'cols': cols, 'dtypes': dts, 'euler_ok': eul}
+            res = {'class': 'ok', 'cols': cols, 'dtypes': dts, 'euler_ok': eul,
+                   'fields_mutated': before is not None and tuple(fields) != before,
+                   'missing_requested': [f for f in (before or ()) if f not in h.colnames]}
             if ld.get('subsamples'):
                 res['n_subsamples'] = len(cat.subsamples)
             out.append(res)
